@@ -46,7 +46,7 @@ int main() {
 #define ID(n, v) std::cout << "Definition " n " : N := " << static_cast<long>(v) << ".\n"
     ID("rm_METHOD_NONE", Http::METHOD_NONE); ID("rm_METHOD_GET", Http::METHOD_GET); ID("rm_METHOD_HEAD", Http::METHOD_HEAD);
     ID("rm_METHOD_POST", Http::METHOD_POST); ID("rm_METHOD_PUT", Http::METHOD_PUT); ID("rm_METHOD_DELETE", Http::METHOD_DELETE);
-    ID("rm_METHOD_PATCH", Http::METHOD_PATCH); ID("rm_METHOD_OPTIONS", Http::METHOD_OPTIONS); ID("rm_METHOD_TRACE", Http::METHOD_TRACE);
+    ID("rm_METHOD_OPTIONS", Http::METHOD_OPTIONS); ID("rm_METHOD_TRACE", Http::METHOD_TRACE);
     ID("rm_METHOD_CONNECT", Http::METHOD_CONNECT);
     ID("rm_METHOD_OTHER", Http::METHOD_OTHER); ID("rm_METHOD_ENUM_END", Http::METHOD_ENUM_END);
     // an extension method (not in the table) parses to METHOD_OTHER: its attributes
